@@ -367,7 +367,7 @@ func (r *room) doJoin(sc *simClient) {
 	// still where the wildcard user would not admit the stranger
 	rare := 60
 	if r.or == "C08" {
-		rare = 12
+		rare = 25
 	}
 	strangerP := 9
 	if !r.cfg.wildcard {
@@ -1251,7 +1251,7 @@ func (r *room) run(weights intentWeights, maxSteps int) {
 		if r.isMember(sc) && intent == "join" && !oneIn(t, 20, "steer2") {
 			intent = "chat"
 			if weights["chat"] == 0 {
-				intent = names[0]
+				intent = "moderate"
 			}
 		}
 		switch intent {
